@@ -69,3 +69,45 @@ Theorem C08_fifo_value_cells_constant :
     List.length (fl_cells l') = cap /\ List.length (fl_list l') = cap.
 Proof. exact @fl_value_cells_constant. Qed.
 Print Assumptions C08_fifo_value_cells_constant.
+
+(* ---- lfuda_cache (LfudaLit.v: std::list<element>, multimap<size_t, list iterator> with stored
+   iterators, the aging loop) ---- *)
+Require Import Capp.Lfuda Capp.LfudaFacts Capp.LfudaLit Capp.LfudaLitFacts.
+
+Theorem C08_lfuda_no_UB_on_any_history :
+  forall (K V : Type) (E : EqDec K) cap tick rnum rk (h : list (ev K V)),
+    1 <= cap -> (0 <= tick)%Z -> mono_from 0 h ->
+    exists l', dl_run (lfdl_init cap tick rnum rk) h
+               = Ok (l', snd (run lf_step (lf_init cap tick rnum rk) h)) /\
+               dl_rep l' (fst (run lf_step (lf_init cap tick rnum rk) h)).
+Proof. exact @dl_no_UB_on_any_history. Qed.
+Print Assumptions C08_lfuda_no_UB_on_any_history.
+
+Theorem C08_lfuda_value_cells_constant :
+  forall (K V : Type) (E : EqDec K) cap tick rnum rk (h : list (ev K V)) l' rs,
+    1 <= cap -> (0 <= tick)%Z -> mono_from 0 h ->
+    dl_run (lfdl_init cap tick rnum rk) h = Ok (l', rs) ->
+    List.length (dl_cells l') = cap /\ List.length (dl_list l') = cap.
+Proof. exact @dl_value_cells_constant. Qed.
+Print Assumptions C08_lfuda_value_cells_constant.
+
+(* ---- ut_map / ut_set (UmLit.v: std::map with stored list iterators, std::list of ttl elements
+   with stored map iterators, nodes created and destroyed dynamically) ---- *)
+Require Import Capp.UtMap Capp.UtMapFacts Capp.UmLit Capp.UmLitFacts.
+
+Theorem C08_utmap_no_UB_on_any_history :
+  forall (K V : Type) (E : EqDec K) ttl (h : list (ev K V)),
+    (0 <= ttl)%Z -> mono_from 0 h ->
+    exists l', ul_run (uml_init ttl) h = Ok (l', snd (run um_step (um_init ttl) h)) /\
+               ul_rep l' (fst (run um_step (um_init ttl) h)).
+Proof. exact @ul_no_UB_on_any_history. Qed.
+Print Assumptions C08_utmap_no_UB_on_any_history.
+
+(* one list node and one ttl element per index entry at all times: nothing leaks, nothing is
+   destroyed twice *)
+Theorem C08_utmap_cells_match_entries :
+  forall (K V : Type) (E : EqDec K) ttl (h : list (ev K V)) l' rs,
+    (0 <= ttl)%Z -> mono_from 0 h -> ul_run (uml_init ttl) h = Ok (l', rs) ->
+    List.length (ul_map l') = List.length (ul_list l') /\ List.length (ul_nodes l') = List.length (ul_list l').
+Proof. exact @ul_cells_match_entries. Qed.
+Print Assumptions C08_utmap_cells_match_entries.
